@@ -8,7 +8,7 @@ LEVEL_TEXT += (" End to end (E2 irsym): every public stream form -- crypto_strea
                "[_xor[_ic]] through the real dispatcher and reference back ends -- is executed on its LLVM IR with key, nonce, 64-bit initial counter and message "
                "ALL symbolic and compared bit for bit with a specification model (RFC 8439, draft-irtf-cfrg-xchacha, Bernstein's Salsa20/XSalsa20) "
                "over one shared graph; counter carries across 2^32 are inside the symbolic counter.")
-E2_EQUIV = ["stream-ref-spec"]
+E2_EQUIV = ["stream-ref-spec", "chacha20-ssse3", "chacha20-avx2", "salsa20-sse2", "salsa20-avx2"]
 TRUSTED = ["CBMC 6.11 + cvc5 1.0 bit-vector semantics", "irsym LLVM-IR interpreter; stream spec models validated against RFC 8439 2.3.2 and native libsodium outputs during development", "spec models in models/ (validated against RFC test vectors by bin/setup)",
            "composition: per-block correctness + counter progression + split consistency => keystream bytes [64i, 64i+64) = Block(key, nonce, ic+i)"]
 ASSUMPTIONS = ["lengths in the enumerated sets"]
